@@ -79,8 +79,31 @@ struct Thr {
 	void    *ret;
 	char     name[32];
 	uint64_t nblocks;
+	void    *wsite[6]; // return addresses of the call that blocked on a mutex / condvar
 	int      role; // for switch signature: 0 main,1 harness,2 task,3 expire,4 poll,5 resolv,6 reap,7 other
 };
+
+// cheap frame-pointer walk (everything is built -fno-omit-frame-pointer)
+static inline void
+sim_fp_walk(void **out, int nframes, int skip)
+{
+	void    **fp = (void **) __builtin_frame_address(0);
+	int       n  = 0;
+	uintptr_t lo = (uintptr_t) fp;
+	while (fp != NULL && n < nframes) {
+		void **next = (void **) fp[0];
+		void  *ret  = fp[1];
+		if (skip > 0)
+			skip--;
+		else
+			out[n++] = ret;
+		if ((uintptr_t) next <= (uintptr_t) fp || (uintptr_t) next > lo + (1u << 20))
+			break;
+		fp = next;
+	}
+	while (n < nframes)
+		out[n++] = NULL;
+}
 
 extern Thr *sim_cur(void);
 extern bool sim_active(void);
